@@ -295,7 +295,18 @@ type replayer struct {
 	ts     *traceSet
 	full   bool // full response-format matrix on every read (replay of a witness)
 	lean   bool // quick tier: fewer raw requests per history
+	// onDrift, if set, receives model-vs-code disagreements instead of the evidence
+	// (used by the self-test that corrupts one predicted value)
+	onDrift func(string)
 	nextID func() int
+}
+
+func (rp *replayer) drift(format string, a ...any) {
+	if rp.onDrift != nil {
+		rp.onDrift(fmt.Sprintf(format, a...))
+		return
+	}
+	rp.c.Drift(format, a...)
 }
 
 // violate reports a C19 violation found while replaying h (up to and including step upto).
@@ -402,7 +413,7 @@ func (rp *replayer) replay(h lakeh.History, hidx int, scratch string) error {
 			return nil
 		}
 		if cls(eL) != st.Res {
-			c.Drift("both access paths report %q for %s where LakeAbs predicts %q (direct: %v; claimed by C14/C15): %s", cls(eL), what, st.Res, eL, h[:upto])
+			rp.drift("both access paths report %q for %s where LakeAbs predicts %q (direct: %v; claimed by C14/C15): %s", cls(eL), what, st.Res, eL, h[:upto])
 			return nil
 		}
 		if st.Res == "ok" && st.Commit != 0 {
@@ -415,7 +426,7 @@ func (rp *replayer) replay(h lakeh.History, hidx int, scratch string) error {
 				return err
 			}
 			if mis != "" && st.Res == "ok" {
-				c.Drift("object layout (%s): %s: %s", what, mis, h[:upto])
+				rp.drift("object layout (%s): %s: %s", what, mis, h[:upto])
 				return nil
 			}
 		}
@@ -457,7 +468,7 @@ func (rp *replayer) compareBranch(p *pair, h lakeh.History, upto, hidx int, st *
 	}
 	if qL.Err != nil {
 		if st.Readable[b] {
-			c.Drift("branch %q cannot be read on either lake although the model says it can (%v; claimed by C14/C15): %s", b, qL.Err, h[:upto])
+			rp.drift("branch %q cannot be read on either lake although the model says it can (%v; claimed by C14/C15): %s", b, qL.Err, h[:upto])
 			return false, nil
 		}
 		return true, nil
@@ -468,10 +479,10 @@ func (rp *replayer) compareBranch(p *pair, h lakeh.History, upto, hidx int, st *
 		gL, gR := sortedInts(uidsOf(qL.Vals)), sortedInts(uidsOf(qR.Vals))
 		if !equalInts(gL, want) {
 			if equalInts(gL, gR) {
-				c.Drift("branch %q holds %v on both lakes, the model predicts %v (claimed by C14/C15): %s", b, gL, want, h[:upto])
+				rp.drift("branch %q holds %v on both lakes, the model predicts %v (claimed by C14/C15): %s", b, gL, want, h[:upto])
 				return false, nil
 			}
-			c.Drift("direct access: branch %q holds %v, the model predicts %v (claimed by C14/C15): %s", b, gL, want, h[:upto])
+			rp.drift("direct access: branch %q holds %v, the model predicts %v (claimed by C14/C15): %s", b, gL, want, h[:upto])
 		}
 		if !equalInts(gR, want) && equalInts(gL, want) {
 			rp.violate("state:contents:"+st.Op, fmt.Sprintf("after %s the served lake's branch %q holds values %v; direct access and the model have %v", what, b, gR, want), h, upto, hidx)
